@@ -258,6 +258,7 @@ func c19one(c *fw.Check, mi int, m *ir.Module, s string, mode string, limit, chu
 func runC19(c *fw.Check) {
 	c.Level = "fault_enumeration"
 	c.Rule = "for each of 6 modules (all WriteTo print sections; parsed and constructed-never-printed) and s=String(): a writer failing at EVERY byte offset k in 0..len(s) in 3 failure flavours (partial+error, whole-call error, full-accept+error) x {plain io.Writer, io.StringWriter}, short-write-without-error at every k, chunk sizes {1,2,3,7,64}; after every failing run a clean WriteTo/String on the same module (history: failure must not leak). PLUS standard-library writers passed as themselves: *bytes.Buffer, *strings.Builder, io.Pipe readers giving up after k bytes, real *os.File (good, read-only, closed, /dev/full, and a regular file the kernel stops accepting after exactly k bytes for every k via RLIMIT_FSIZE), acceptance measured from outside. Oracle: n==bytes accepted, err==first writer error (identity), delivered==s[:n], zero calls after failure, clean run == s. distinct = distinct (module,mode,offset,chunk,writer kind)."
+	c19allKinds(c)
 	ms := c19modules()
 	stride := 1
 	for mi, m := range ms {
@@ -291,9 +292,56 @@ func runC19(c *fw.Check) {
 	}
 }
 
+// c19allKinds: the writer fails inside a module that holds every construct of the generator
+// catalogue (every print section and every kind of line). Offsets: every line boundary and the
+// bytes next to it (quick); every byte offset (thorough). Module index 100.
+func c19allKinds(c *fw.Check) {
+	text := c11base()
+	m0, err := asm.ParseString("c19all.ll", text)
+	if err != nil {
+		fw.Fatalf("C19 all-kinds module does not parse: %v", err)
+	}
+	s := m0.String()
+	var offs []int
+	for k := 0; k <= len(s); k++ {
+		if c.Deep() || k == 0 || k == len(s) || s[k-1] == '\n' || (k < len(s) && s[k] == '\n') || (k >= 2 && s[k-2] == '\n') {
+			offs = append(offs, k)
+		}
+	}
+	const parts = 32
+	fw.ParallelFor(parts, func(pi int) {
+		m, err := asm.ParseString("c19all.ll", text)
+		if err != nil {
+			return
+		}
+		for i := pi; i < len(offs); i += parts {
+			k := offs[i]
+			for _, mode := range []string{"partial", "whole", "late"} {
+				c19one(c, 100, m, s, mode, k, 0, false)
+			}
+			c19one(c, 100, m, s, "partial", k, 0, true)
+			if i%64 == pi%64 {
+				c19one(c, 100, m, s, "ok", 0, 0, false)
+			}
+		}
+	})
+	c.Extra["all_kinds_module_bytes"] = len(s)
+	c.Extra["all_kinds_module_fault_offsets"] = len(offs)
+}
+
 func replayC19(c *fw.Check, path string) {
 	var cs c19case
 	loadReplay(path, &cs)
+	if cs.Module == 100 {
+		m, err := asm.ParseString("c19all.ll", c11base())
+		if err != nil {
+			fw.Fatalf("C19 all-kinds module does not parse: %v", err)
+		}
+		s := m.String()
+		c19one(c, 100, m, s, cs.Mode, cs.Limit, cs.Chunk, cs.StrW)
+		c19one(c, 100, m, s, "ok", 0, 0, cs.StrW)
+		return
+	}
 	ms := c19modules()
 	m := ms[cs.Module]
 	s := m.String()
